@@ -105,6 +105,9 @@ class GLRParser(Parser):
         self._tokens_ahead = []
         self._last_shifted_heads = []
         self._for_shifter = []
+        # Shift level. Heads shifted later (lexical ambiguity) must not reuse
+        # the frontier of heads already shifted to an earlier position.
+        self._frontier = 0
 
         # We start with a single parser head in state 0.
         start_head = GSSNode(
@@ -472,6 +475,7 @@ class GLRParser(Parser):
         if _verif.ON:
             _verif.emit("glr_shift_phase", parser=self)
         self._active_heads = {}
+        self._frontier += 1
 
         # Due to lexical ambiguity heads might be at different positions.
         # We must order heads by position before shift to process them in
@@ -520,7 +524,7 @@ class GLRParser(Parser):
                     head.input_str,
                     to_state,
                     end_position,
-                    head.frontier + 1,
+                    self._frontier,
                     head.extra,
                     ambiguity=1,
                     layout_content=head.layout_content_ahead,
